@@ -710,13 +710,37 @@ func (u *Unit) evalSpecCall(env *SpecEnv, c *ECall) Value {
 			return r
 		}
 	}
+	// application of a function-typed parameter (pure, total, deterministic: uninterpreted)
+	if id, ok := c.Fun.(*EIdent); ok {
+		if fv, found := env.lookup(id.Name); found && fv.T != nil {
+			if sig, isSig := fv.Ty.Underlying().(*types.Signature); isSig && sig.Results().Len() == 1 {
+				sorts := []string{"Int"}
+				ts := []*Term{fv.T}
+				for i := range c.Args {
+					a := arg(i)
+					sorts = append(sorts, a.T.Sort)
+					ts = append(ts, a.T)
+				}
+				rt := sig.Results().At(0).Type()
+				uname := fmt.Sprintf("apply_%s_%d", sanitize(TypeKey(fv.Ty)), 0)
+				return Value{T: w.UF(uname, sorts, w.SortOf(rt), ts...), Ty: rt}
+			}
+		}
+	}
 	// spec function?
 	if env.cf != nil {
-		if sf := u.V.specFunc(env.cf, name); sf != nil {
+		if sf, dcf := u.V.specFuncIn(env.cf, name); sf != nil {
 			var args []Value
 			for i := range c.Args {
 				args = append(args, arg(i))
 			}
+			denv := *env
+			denv.cf = dcf
+			denv.pkg = nil
+			if sp, ok := u.V.SSAPkgs[dcf.PkgPath]; ok {
+				denv.pkg = sp.Pkg
+			}
+			u.defineSpecFunc(&denv, sf)
 			return u.applySpecFunc(env, sf, args)
 		}
 	}
